@@ -54,23 +54,35 @@ func resReplay(s *Summary, raw json.RawMessage) {
 			continue
 		}
 		for rep := 0; rep < 4; rep++ {
-			resRun(s, &c, ctl, base)
+			resRun(s, &c, ctl, base, rep%2 == 1)
 		}
 	}
 }
 
-func resRun(s *Summary, c *resCase, ctl resCtl, base string) {
+func resRun(s *Summary, c *resCase, ctl resCtl, base string, nested bool) {
 	name := strings.ToLower(ctl.name)
 	desc := func(aspect, what string) map[string]any {
-		return map[string]any{"kind": "resource", "aspect": aspect, "controller": ctl.name, "uses": ctl.uses, "base": base,
-			"what": fmt.Sprintf("Resource(%q, %s implementing %v, Uses=%v): %s", base, ctl.name, c.Impl, ctl.uses, what)}
+		return map[string]any{"kind": "resource", "aspect": aspect, "controller": ctl.name, "uses": ctl.uses, "base": base, "nested": nested,
+			"what": fmt.Sprintf("Resource(%q, %s implementing %v, Uses=%v, inside a group with 3 Use calls=%v): %s", base, ctl.name, c.Impl, ctl.uses, nested, what)}
 	}
 	r := rux.New()
 	r.GET("/unrelated", nopHandler)
 	var pan any
+	grp := nested
 	func() {
 		defer func() { pan = recover() }()
-		r.Resource(base, ctl.mk())
+		if !grp {
+			r.Resource(base, ctl.mk())
+			return
+		}
+		// inside a group whose middleware chain was grown by single Use calls (len 3, cap 4): the chain of every action
+		// must be a private copy, Uses() middleware of one action must not show up in another
+		r.Group("/", func() {
+			r.Use(resMw("g1"))
+			r.Use(resMw("g2"))
+			r.Use(resMw("g3"))
+			r.Resource(base, ctl.mk())
+		})
 	}()
 	s.Compared++
 	if pan != nil {
@@ -122,6 +134,9 @@ func resRun(s *Summary, c *resCase, ctl resCtl, base string) {
 		wantBody := action
 		if ctl.uses {
 			wantBody = "mw:" + action + ";" + action
+		}
+		if grp {
+			wantBody = "mw:g1;mw:g2;mw:g3;" + wantBody
 		}
 		if action == "none" {
 			if w.Code != 404 {
